@@ -173,11 +173,17 @@ def build_for(pid, table_ids=None):
             out['log'] = 'gen_tables shape error: %s' % e
             # the stale tables stay; model may still build from them
         ok, log = make(['Ext/Extract.vo'])
+        if not ok:      # a stale dependency file after new .v files appeared: regenerate and retry once
+            subprocess.run(['coq_makefile', '-f', '_CoqProject', '-o', 'Makefile'], cwd=COQ, stdout=subprocess.DEVNULL)
+            ok, log2 = make(['Ext/Extract.vo'])
+            log += log2
         out['log'] += log[-4000:]
+        out['model_log'] = log[-3000:]
         if ok:
             ok2, log2 = link()
             out['model_ok'] = ok2
             out['log'] += log2[-2000:]
+            out['model_log'] = out.get('model_log', '') + log2[-2000:]
         deps = [pid + '/Props.vo'] if os.path.exists(os.path.join(COQ, pid, 'Props.v')) else []
         ok3, log3 = make(deps) if deps else (True, '')
         out['lemmas_ok'] = ok3
